@@ -285,7 +285,12 @@ Proof.
     + intros O. destruct (opens c) eqn:Oc.
       * rewrite (ext_opens _ _ Iext Oc) in O. discriminate.
       * destruct (Istart eq_refl) as [A _]. split; auto.
-  - discriminate.
+  - (* SRollback *)
+    destruct w as [[c pd] aw]. destruct I as [Iext Iidc Iidv Irc Irv Iaw Inoaw Istart].
+    cbn [step_ok next_await exec w_st w_await comm pend view] in *.
+    constructor; cbn [w_st w_await comm pend view]; auto using ext_refl.
+    + intros t r E. discriminate.
+    + intros O. destruct (Istart O) as [_ B]. split; exact B.
   - (* SInsertCase *)
     destruct w as [[c pd] aw]. destruct I as [Iext Iidc Iidv Irc Irv Iaw Inoaw Istart].
     cbn [step_ok next_await w_st w_await comm pend view] in *.
